@@ -45,6 +45,10 @@ VARIANTS = [
         dict(file=MB, old="            non_edges.update(_bonds_from_names(system, resname, idxs, force_field))", new="            non_edges |= _bonds_from_names(system, resname, idxs, force_field)")]),
     dict(name='benign-search-radius-generous', expect='silent', edits=[
         dict(file=MB, old="        pairs = tree.sparse_distance_matrix(tree, max_dist)", new="        pairs = tree.sparse_distance_matrix(tree, max_dist * 1.5)")]),
+    dict(name='name-bond-fallback-absorbs-more-errors', expect='fire', key='EXC-handlers|vermouth/processors/make_bonds.py|make_bonds', edits=[
+        dict(file=MB, old="        except KeyError as error:\n            # ... if that doesn't work, fall back to distance", new="        except (KeyError, ValueError) as error:\n            # ... if that doesn't work, fall back to distance")]),
+    dict(name='benign-log-in-handler', expect='silent', edits=[
+        dict(file=MB, old="            warning_type = 'inconsistent-data'\n            if 'is not known to force field' in str(error):", new="            warning_type = 'inconsistent-data'\n            LOGGER.debug('name based bonds failed: {}', error)\n            if 'is not known to force field' in str(error):")]),
     dict(name='benign-demorgan-guard', expect='silent', edits=[
         dict(file=MB, old="        if element1 == 'H' and element2 == 'H' or \\\n                (resserial1 != resserial2 and (element1 == 'H' or element2 == 'H')):\n            continue\n",
              new="        both_h = element1 == 'H' and element2 == 'H'\n        any_h = element1 == 'H' or element2 == 'H'\n        if both_h:\n            continue\n        if any_h and not resserial1 == resserial2:\n            continue\n")]),
